@@ -22,6 +22,10 @@ const (
 
 // Program is the loaded, type-checked module under analysis.
 type Program struct {
+	entryClasses map[string][]bool
+	entryBacked  map[string]bool
+	constTables map[*types.Var][]*ast.KeyValueExpr
+	recorded map[string]bool // functions of the reviewed tree (anchors_gen.go), by package|receiver|name
 	Dir    string
 	Fset   *token.FileSet
 	All    []*packages.Package // the three module packages, sorted by path
